@@ -291,6 +291,13 @@ func (p *Parser) lookupManipulatorFunc(funcName, optName string, pos token.Pos) 
 	for i := 0; i < sig.Params().Len()-2; i++ {
 		additionalArgs[i] = sig.Params().At(i + 2).Type()
 	}
+	if n := len(additionalArgs); sig.Variadic() && 0 < n {
+		// Each parameter receives exactly one argument, so what a variadic parameter ...T has to
+		// accept is a single T (go/types reports its type as []T).
+		if slice, ok := additionalArgs[n-1].(*types.Slice); ok {
+			additionalArgs[n-1] = slice.Elem()
+		}
+	}
 	return &option.Manipulator{
 		Func:           obj,
 		DstSide:        sig.Params().At(0).Type(),
